@@ -1,6 +1,6 @@
-(* Properties/C07.v — mkdir validates names first. *)
+(* Properties/C07.v — mkdir never escapes the target directory and validates names first. *)
 From Coq Require Import List Ascii String.
-From GT Require Import Base.GoStr Tree.Tree Tree.Grower Api.Simple Fs.FsModel Fs.Mkdir Proofs.Paths Proofs.FsBasic.
+From GT Require Import Base.GoStr Tree.Tree Tree.Grower Api.Simple Fs.FsModel Fs.Mkdir Proofs.Paths Proofs.FsBasic Proofs.MkdirExact Proofs.MkdirConfined.
 Import ListNotations.
 
 (* every mkdir entry point (From-Markdown, From-Root, real or dry-run, any extensions and
@@ -11,6 +11,53 @@ Theorem C07_rejects : forall c dir f ts,
   exists e, mkdir_trees c dir f ts = (f, [], Err e).
 Proof. exact mkdir_rejects_bad_names. Qed.
 Print Assumptions C07_rejects.
+
+(* CONFINEMENT, all inputs and all outcomes (success, name rejection, path-exists error, an OS
+   refusal part-way): for a target that is a clean relative path of valid elements, in a file
+   system where every entry's parent is a directory entry, nothing that existed is removed or
+   retyped, and every new entry is either strictly below the target, spelled by valid single
+   elements only, or a missing prefix of the target itself (then a directory) *)
+Theorem C07_confined : forall c tc f ts f' cs r,
+  eok tc -> fs_parents f ->
+  mkdir_trees c (dir_of tc) f ts = (f', cs, r) ->
+  (forall p k, lookup p f = Some k -> lookup p f' = Some k) /\
+  (forall p k, lookup p f = None -> lookup p f' = Some k ->
+     (exists comps, comps <> [] /\ eok comps /\ p = pth (tc ++ comps))
+     \/ (exists a, pfx a tc /\ a <> [] /\ p = pth a /\ k = KDir)).
+Proof. exact mkdir_confined. Qed.
+Print Assumptions C07_confined.
+
+(* with no hypothesis on the file system at all: every new entry is comparable with the target
+   (below it, or one of its prefixes) and spelled by valid elements *)
+Theorem C07_never_outside : forall c tc f ts f' cs r,
+  eok tc ->
+  mkdir_trees c (dir_of tc) f ts = (f', cs, r) ->
+  forall p k, lookup p f = None -> lookup p f' = Some k ->
+    eok (comps_of p) /\ comps_of p <> [] /\
+    ((cpfx (pth tc) p /\ p <> pth tc) \/ (cpfx p (pth tc) /\ k = KDir)).
+Proof. exact mkdir_never_outside. Qed.
+Print Assumptions C07_never_outside.
+
+(* validation comes first: a dry run, a rejected name or path, and an existing root leave the
+   file system exactly as it was, for every target string; and these are all the outcomes *)
+Theorem C07_untouched : forall c dir f ts f' cs r,
+  mkdir_trees c dir f ts = (f', cs, r) ->
+  c_dry c = true \/ (r <> Ok tt /\ r <> Err EOs) -> f' = f.
+Proof. exact mkdir_untouched. Qed.
+Print Assumptions C07_untouched.
+
+Theorem C07_outcomes : forall c dir f ts f' cs r,
+  mkdir_trees c dir f ts = (f', cs, r) ->
+  r = Ok tt \/ r = Err EOs \/ r = Err EExistPath \/
+  (exists n, r = Err (EInvalidName n)) \/ (exists q, r = Err (EInvalidPath q)).
+Proof. exact mkdir_outcomes. Qed.
+Print Assumptions C07_outcomes.
+
+(* the side condition of C07_confined is an invariant of mkdir, and holds of the empty file system *)
+Theorem C07_parents_kept : forall c tc f ts f' cs r,
+  eok tc -> fs_parents f -> mkdir_trees c (dir_of tc) f ts = (f', cs, r) -> fs_parents f'.
+Proof. exact mkdir_keeps_parents. Qed.
+Print Assumptions C07_parents_kept.
 
 Definition s (x : string) : str := list_ascii_of_string x.
 Definition rc := {| c_bf := default_bfmt; c_enc := EncDefault; c_dry := false; c_exts := []; c_noiter := false |}.
